@@ -81,6 +81,7 @@ def run(ctx):
         check_optional_angles(ctx, m, kw, model)
         check_material_reuse(ctx, m, model)
         check_exact_critical(ctx, m, kw, model)
+        check_path_door(ctx, m, model)
         # helpers: all triples, both units
         for kind, mi, mo in (("fluid_solid", "L", "L"), ("fluid_solid", "L", "T"), ("solid_fluid", "L", "L"), ("solid_fluid", "T", "L")):
             c_inc = m["cF"] if kind == "fluid_solid" else (m["cL"] if mi == "L" else m["cT"])
@@ -243,6 +244,63 @@ def check_helper_dtypes(ctx, what, helper, ikind, mat1, mat2, mode_in, mode_out,
     ctx.count("helper_variant:real scalar, force_complex=False")
     if np.isfinite(v).all() and not rel_close(complex(v), v_default, 1e-9):
         ctx.violate(f"{what}_at_interface({kind},{mi},{mo},{unit}) with real angle and force_complex=False: {v!r}, expected {v_default!r}", {**cj, "variant": "real"}, {"kind": "helper_dtype"})
+
+
+def check_path_door(ctx, m, model):
+    """The coefficients as the path-level functions hand them out (`transmission_reflection_for_path` and
+    `reverse_transmission_reflection_for_path`, the doors the forward models use): for a one-wall immersion path whose single
+    ray meets the wall at a PRESCRIBED incidence angle (any angle in [0, 89.9 deg], on either side of the critical angles), the
+    direct product is the fluid-to-solid helper at that angle, the reverse product is the solid-to-fluid helper at the Snell
+    refracted (complex beyond critical incidence) angle — same units, same `force_complex`."""
+    import arim
+    import arim.geometry as g
+    from arim import ray
+
+    rng = ctx.rng
+    fluid, solid = materials(m)
+    for mode in ("L", "T"):
+        c_mode = m["cL"] if mode == "L" else m["cT"]
+        for a in gen_angles(rng, m, m["cF"], 4):
+            if not (1e-6 < a < np.deg2rad(89.5)):
+                continue
+            src = g.Points(np.array([[-np.tan(a) * 1e-2, 0.0, -1e-2]]), "Probe")
+            wall = g.Points(np.array([[0.0, 0.0, 0.0]]), "Wall")
+            tgt = g.Points(np.array([[rng.uniform(-5e-3, 5e-3), 0.0, 8e-3]]), "Target")
+            ifaces = (arim.Interface(src, g.default_orientations(src), are_normals_on_out_rays_side=True),
+                      arim.Interface(wall, g.default_orientations(wall), kind="fluid_solid", transmission_reflection="transmission",
+                                     are_normals_on_inc_rays_side=False, are_normals_on_out_rays_side=True),
+                      arim.Interface(tgt, g.default_orientations(tgt), are_normals_on_inc_rays_side=True))
+            path = arim.Path(ifaces, (fluid, solid), ("L", mode), name=mode)
+            ray.ray_tracing_for_paths([path])
+            rgeo = ray.RayGeometry.from_path(path)
+            th = rgeo.conventional_inc_angle(1)
+            for unit in ("stress", "displacement"):
+                for fc in (True, False):
+                    cj = {"op": "path_door", "media": m, "incidence": float(th[0, 0]), "mode": mode, "unit": unit, "force_complex": fc}
+                    ctx.case(("path_door", media_args(m), float(a), mode, unit, fc), a > np.arcsin(min(1.0, m["cF"] / m["cL"])))
+                    ctx.count("path_door:" + mode)
+                    with np.errstate(all="ignore"):
+                        try:
+                            fwd = model.transmission_reflection_for_path(path, rgeo, force_complex=fc, unit=unit)
+                            rev = model.reverse_transmission_reflection_for_path(path, rgeo, force_complex=fc, unit=unit)
+                        except Exception as e:
+                            ctx.violate(f"the path-level transmission functions raised {type(e).__name__}: {str(e)[:80]}", cj, {"kind": "path_door"})
+                            continue
+                        ang = np.asarray(th, dtype=complex) if fc else np.asarray(th)
+                        want_f = model.transmission_at_interface(arim.InterfaceKind.fluid_solid, fluid, solid, arim.Mode.L, arim.Mode[mode], ang, force_complex=fc, unit=unit)
+                        want_r = model.transmission_at_interface(arim.InterfaceKind.solid_fluid, solid, fluid, arim.Mode[mode], arim.Mode.L,
+                                                                 model.snell_angles(ang, m["cF"], c_mode), force_complex=fc, unit=unit)
+                    def same(x, y):
+                        x, y = complex(np.ravel(x)[0]), complex(np.ravel(y)[0])
+                        if np.isnan(x) or np.isnan(y):
+                            return np.isnan(x) and np.isnan(y)
+                        return rel_close(x, y, 1e-12)
+                    if fc and (np.isnan(complex(np.ravel(rev)[0])) or np.isnan(complex(np.ravel(fwd)[0]))):
+                        ctx.violate(f"with force_complex the path-level coefficient is NaN at incidence {np.rad2deg(float(th[0, 0])):.3f} deg "
+                                    f"(direct {np.ravel(fwd)[0]}, reverse {np.ravel(rev)[0]}): beyond critical incidence the refracted angle is complex, not undefined", cj, {"kind": "path_door"})
+                    elif not (same(fwd, want_f) and same(rev, want_r)):
+                        ctx.violate(f"path-level coefficients (direct {np.ravel(fwd)[0]}, reverse {np.ravel(rev)[0]}) are not the per-interface helpers at the same angles "
+                                    f"({np.ravel(want_f)[0]}, {np.ravel(want_r)[0]})", cj, {"kind": "path_door"})
 
 
 def check_optional_angles(ctx, m, kw, model):
